@@ -12,6 +12,7 @@
     op ranks <asc|desc> V… => mut=. / id:rank…
     op merge <0|1> H… => mut=. <nil|ok> / out…          (1 = followed by sortResultsByScore)
     op glue => <err|ok>×3 <default weights, K>          (constructor error paths, defaults)
+    op defaults <before|after> => <wv> <wt> <K>        (DefaultFusionConfig() around a customisation)
     op panic …                                          (the implementation panicked)
 
   Verdicts.  `SPECFAIL` = the property-level predicate is false on the
@@ -478,6 +479,11 @@ def op (st : Unit) (toks : List String) : Unit × String :=
       -- unknown kinds are rejected; the default fusion configuration is (1, 1, 60)
       if post == ["err", "err", "err", "3ff0000000000000", "3ff0000000000000", "404e000000000000"]
       then "ok" else s!"SPECFAIL glue {post}"
+    | ["defaults", when] =>
+      -- DefaultFusionConfig() is (1, 1, 60) before and AFTER a config obtained from it was customised
+      if post == ["3ff0000000000000", "3ff0000000000000", "404e000000000000"]
+      then (if when == "after" then "ok defaultsafter=1" else "ok")
+      else s!"SPECFAIL defaults {when}: DefaultFusionConfig() = {post}, want weights 1, 1 and K = 60"
     | "agg" :: modality :: kind :: rest => opAgg modality kind rest post
     | "limit" :: _ :: k :: rest => opLimit k rest post
     | ["sanitize", k, n] => opSanitize k n post
